@@ -47,13 +47,15 @@ class FakeWriter:
 
     def write(self, data):
         self.attempts = getattr(self, "attempts", 0) + 1
-        if self.fail_next:
+        if self.fail_next or getattr(self, "broken", False):
             self.fail_next = False
             raise ConnectionResetError("peer went away")
         self.data += data
 
     async def drain(self):
         await asyncio.sleep(0)
+        if getattr(self, "broken", False):
+            raise ConnectionResetError("peer went away")
 
     def close(self):
         self.closed = True
@@ -72,13 +74,15 @@ class FakeStdout:
     async def write(self, s):
         self.attempts = getattr(self, "attempts", 0) + 1
         await asyncio.sleep(0)
-        if self.fail_next:
+        if self.fail_next or getattr(self, "broken", False):
             self.fail_next = False
             raise BrokenPipeError("stdout closed")
         self.data += s.encode("latin1")
 
     async def flush(self):
         await asyncio.sleep(0)
+        if getattr(self, "broken", False):
+            raise BrokenPipeError("stdout closed")
 
 
 async def idle():
@@ -173,6 +177,9 @@ def run_case(case):
                     rd.feed(client_message_xml("newTextVector", "A", k=k).encode("latin1"))
             elif step[0] == "peer-write-error":
                 conns[step[1]]["writer"].fail_next = True
+            elif step[0] == "write-broken":
+                # the peer's receiving side is gone for good: every later write / drain / flush on this connection fails
+                conns[step[1]]["writer"].broken = True
             elif step[0] == "write-reset":
                 # the peer reset its receiving side: the transport is marked closing, reads still block; the connection
                 # has not ended yet as far as the server can tell, and nobody else may be affected
@@ -287,7 +294,7 @@ def run_impl(case, outcome):
             else:
                 k_ = 1 + case["script"].index(st)
                 events.append("R %d %s 0" % (i, enc_str(client_message_xml("newTextVector", "A", k=k_))))
-        last_of_step.append(len(events) - 1 if st[0] not in ("peer-write-error", "write-reset") else None)
+        last_of_step.append(len(events) - 1 if st[0] not in ("peer-write-error", "write-reset", "write-broken") else None)
     expected = {}
     for n, (st, o, le) in enumerate(zip(case["script"], obs, last_of_step)):
         if le is not None:
@@ -377,6 +384,17 @@ def gen_cases(rng, tier):
         for victim in range(n):
             pos = rng.randrange(n, len(base))
             yield {"op": "conn", "script": base[:pos] + [["peer-write-error", victim]] + base[pos:] + [["dev", 0, "setTextVector", "A"], ["dev", 1, "setTextVector", "B"]]}
+    # two faults on one connection: its write side fails for good (every send task dies), device traffic keeps coming, then its
+    # read side ends - by EOF, by a read error, inside a message
+    for n in (2, 3):
+        base = base_script(n)
+        for victim in range(n):
+            for fault in (["eof", "read-error"] if not thorough else ["eof", "read-error", "eof-inside", "junk-eof", "handler-exc"]):
+                pos = len(base) - rng.randrange(0, 4)
+                script = ([list(x) for x in base[:pos]] + [["write-broken", victim], ["dev", 0, "setTextVector", "A"], ["dev", 1, "defTextVector", "B"],
+                                                         ["fault", victim, fault], ["dev", 0, "setTextVector", "A"], ["dev", 0, "setBLOBVector", "A"],
+                                                         ["connect", 7, rng.choice(kinds)], ["dev", 1, "setTextVector", "B"]])
+                yield {"op": "conn", "script": script}
     # the peer resets its receiving side (transport closing, reads still pending), device traffic follows, then the connection ends
     for n in (2, 3):
         base = base_script(n)
@@ -392,7 +410,9 @@ def gen_cases(rng, tier):
                '<newBLOBVector device="A" name="P"><oneBLOB name="e" size="inf" format=".x">QUJD</oneBLOB></newBLOBVector>',
                '<pingReply uid="7"/>', '<setTextVector device="A" name="P" state="Ok"/>', '<delProperty device="A"/>', '<enableBLOB device="A">Sometimes</enableBLOB>',
                '<newTextVector device="A" name="P"><oneText name="e">caf\xe9 \xff</oneText></newTextVector>', '<message device="A" message="hi"/>',
-               '<getProperties version="1.7" device=""/>', '<newTextVector device="" name="P"><oneText name="e">v</oneText></newTextVector>']
+               '<getProperties version="1.7" device=""/>', '<getProperties version="1.7.1"/>', '<getProperties version="v2" device="A"/>', '<getProperties version=""/>',
+               '<getProperties version="1,7" device="A" name="P"/>', '<getProperties/>', '<getProperties version="nan"/>', '<enableBLOB device="A" name="P">Also</enableBLOB>',
+               '<newTextVector device="A" name="P" timestamp="not a time"><oneText name="e">v</oneText></newTextVector>', '<newTextVector device="" name="P"><oneText name="e">v</oneText></newTextVector>']
     for n in (2,):
         base = base_script(n)
         for hmsg in hostile:
